@@ -6,12 +6,14 @@
 #include "cmd_cond.h"
 #include "cmd_sym.h"
 #include "cmd_sim.h"
+#include "cmd_simx.h"
 #include "cmd_mem.h"
 #include "cmd_fileio.h"
 #include "cmd_det.h"
 #include "cmd_util.h"
 #include "cmd_listing.h"
 #include "cmd_macro.h"
+#include "cmd_link.h"
 
 static void register_all()
 {
@@ -21,10 +23,12 @@ static void register_all()
   register_cond();
   register_sym();
   register_sim();
+  register_simx();
   register_mem();
   register_fileio();
   register_det();
   register_util();
   register_listing();
   register_macro();
+  register_link();
 }
